@@ -16,6 +16,7 @@
 -/
 import Proofs.FileStoreTop
 import Proofs.Mapping
+import ZodbModel.Generated
 namespace Props.C04
 open ZodbModel ZodbModel.FileStore
 
@@ -156,6 +157,21 @@ theorem reopen_answers_same {s : FS} (h : Inv s) :
          fun x y => (b.2.2.2.2.2.2.2.1 x y).trans (a.2.2.2.2.2.2.2.1 x y).symm,
          fun n => (b.2.2.2.2.2.2.2.2.1 n).trans (a.2.2.2.2.2.2.2.2.1 n).symm,
          fun n => (b.2.2.2.2.2.2.2.2.2 n).trans (a.2.2.2.2.2.2.2.2.2 n).symm⟩
+
+/-! ### tie to constants translated from the source on every run (`ZodbModel/Generated.lean`) -/
+
+def agrees (g : Option Nat) (m : Nat) : Bool := match g with | none => true | some v => v == m
+
+/-- the offsets of the model are computed with the header lengths of `format.py`
+    (`DATA_HDR_LEN` = 42 + payload | 8-byte back pointer, `TRANS_HDR_LEN` = 23 + metadata) -/
+theorem tie_header_lengths :
+    agrees Generated.dataHdrLen (DRec.size ⟨0, 0, 0, .data []⟩) = true ∧
+    agrees Generated.dataHdrStructLen (DRec.size ⟨0, 0, 0, .data []⟩) = true ∧
+    DRec.size ⟨0, 0, 0, .back 0⟩ = DRec.size ⟨0, 0, 0, .data []⟩ + 8 ∧
+    agrees Generated.transHdrLen (FTxn.hdrLen ⟨0, 0, [], [], [], []⟩) = true ∧
+    agrees Generated.transHdrStructLen (FTxn.hdrLen ⟨0, 0, [], [], [], []⟩) = true ∧
+    FTxn.size ⟨0, 0, [], [], [], []⟩ = FTxn.hdrLen ⟨0, 0, [], [], [], []⟩ + 8 ∧ logEnd [] = 4 := by
+  decide
 
 /-! ### non-vacuity: a concrete reachable state with a back-pointer record and three revisions
 
